@@ -159,6 +159,11 @@ func oracleC03(r *Result) {
 		ac := firstCall(t, "AuthRequestByID")
 		uc := firstCall(t, "SetUserinfoWithUserID")
 		ec := firstCall(t, "GetEntityIDByAppID")
+		if uc != nil && uc.Err != "" && uc.Fault != "abandoned" {
+			r.violate("C03 success-without-user-record", "C03:callback:success-although-user-lookup-failed:"+deliveryClass(rep),
+				"a Success response carries exactly the data of the user storage resolved", "SetUserinfoWithUserID failed ("+uc.Fault+"), reply: "+replySummary(t), t.ID)
+			continue
+		}
 		if ac == nil || ac.Snap == nil || uc == nil || uc.UserIdx < 0 || ec == nil {
 			continue // C01's business
 		}
@@ -375,8 +380,12 @@ func (g G) planFlows(prop string) *Plan {
 		wSSO: 22, wCallback: 22, wAttrQ: 8, wMeta: 6, wCert: 2, wSLO: 2,
 		wResume: 25, wFinish: 10, wComplete: 10, wAdvance: 6, wRotate: 3, wRotateMeta: 2, wRestart: 1, wRereg: 1,
 		hostVariety: true, minSteps: 4, maxSteps: 36, maxPre: 4, hardPre: true, autoFinishPct: 45, callbackAfter: 70, raceBias: true}
+	if prop == "C03" {
+		o.faultPcts = []int{0, 0, 0, 12}
+	}
 	if prop == "C04" {
 		o.wAttrQ, o.wMeta = 14, 10
+		o.faultPcts = []int{0, 0, 10, 25} // a failing key read must never let an unsigned Success assertion out
 	}
 	p := g.planMix(prop, o)
 	return p
